@@ -267,8 +267,12 @@ def site_cases(ev, ctx, l, allow_multi=False, depth=0):
                 pay = ev.payload(ctx, recv)
                 cond = ev.closure_ret(ctx, clo, [("ref", pay)])
                 v = ev.call(ctx, bb, payload)
+                rv_ = unref(recv)
+                lit_some = rv_[0] == "agg" and rv_[1].endswith("Option::Some")
+                # (`Some(x).filter(p)` is None exactly when p(x) fails)
                 sub = [("Some", [("is_some", unref(recv), True)] + bool_facts(cond, True),
-                        ("agg", "std::option::Option::Some", (pay,))), ("None", [], v)]
+                        ("agg", "std::option::Option::Some", (pay,))),
+                       ("None", bool_facts(cond, False) if lit_some else [], v)]
             if sub is None:
                 nctx = ev.callee_ctx(ctx, bb)
                 if nctx is not None:
@@ -414,6 +418,27 @@ def switch_facts(ev, ctx, bb, target_vals, is_otherwise, listed_vals):
     return out
 
 
+def derive_satsub(out):
+    """saturating_sub(a, b) == 0 exactly when a <= b; != 0 (or 0 < it) exactly when b < a: adds the order facts (in place)"""
+    for f in list(out):
+        if len(f) == 3 and f[0] in ("eq", "ne", "lt", "le"):
+            x = z = None
+            if f[0] in ("eq", "ne"):
+                for p_, q_ in ((f[1], f[2]), (f[2], f[1])):
+                    if q_ == ("int", 0) and isinstance(p_, tuple):
+                        x, z = unref(p_), f[0]
+            elif f[0] == "lt" and f[1] == ("int", 0) and isinstance(f[2], tuple):
+                x, z = unref(f[2]), "ne"
+            elif f[0] == "le" and f[2] == ("int", 0) and isinstance(f[1], tuple):
+                x, z = unref(f[1]), "eq"
+            if x is not None and x[0] == "call" and x[1] == "saturating_sub" and len(x[2]) == 2:
+                a_, b_ = unref(x[2][0]), unref(x[2][1])
+                g = ("le", a_, b_) if z == "eq" else ("lt", b_, a_)
+                if g not in out:
+                    out.append(g)
+    return out
+
+
 def block_facts(ev, ctx, bb, unwind=False):
     """Facts that hold whenever block bb of ctx.body executes (from dominating switch/assert edges)."""
     body = ctx.body
@@ -467,23 +492,7 @@ def block_facts(ev, ctx, bb, unwind=False):
                         out.append(("no_ovf", c[1], c[2], c[3]))
                 else:
                     out.extend(bool_facts(c, bool(t["expected"])))
-    # saturating_sub(a, b) == 0 exactly when a <= b; != 0 (or 0 < it) exactly when b < a
-    for f in list(out):
-        if len(f) == 3 and f[0] in ("eq", "ne", "lt", "le"):
-            x = z = None
-            if f[0] in ("eq", "ne"):
-                for p_, q_ in ((f[1], f[2]), (f[2], f[1])):
-                    if q_ == ("int", 0):
-                        x, z = unref(p_), f[0]
-            elif f[0] == "lt" and f[1] == ("int", 0):
-                x, z = unref(f[2]), "ne"
-            elif f[0] == "le" and f[2] == ("int", 0):
-                x, z = unref(f[1]), "eq"
-            if x is not None and x[0] == "call" and x[1] == "saturating_sub" and len(x[2]) == 2:
-                a_, b_ = unref(x[2][0]), unref(x[2][1])
-                g = ("le", a_, b_) if z == "eq" else ("lt", b_, a_)
-                if g not in out:
-                    out.append(g)
+    derive_satsub(out)
     # antisymmetry: a <= b and b <= a give a == b (`while a > b {..}; if a < b {return}` leaves a == b)
     les = [(f[1], f[2]) for f in out if f[0] == "le" and len(f) == 3]
     nes = [(f[1], f[2]) for f in out if f[0] == "ne" and len(f) == 3]
